@@ -816,7 +816,9 @@ func (db *DB) writeToLSM(b *request) error {
 
 	for i, entry := range b.Entries {
 		var err error
-		if entry.skipVlogAndSetThreshold(db.valueThreshold()) {
+		// In InMemory mode there is no value log (b.Ptrs is empty), so every value, including one
+		// whose length equals the value threshold, is stored in the LSM tree.
+		if db.opt.InMemory || entry.skipVlogAndSetThreshold(db.valueThreshold()) {
 			// Will include deletion / tombstone case.
 			err = db.mt.Put(entry.Key,
 				y.ValueStruct{
